@@ -1,5 +1,5 @@
 (* C02 — Reconciliation converges to exactly the desired pods and then goes quiet.  Statements only. *)
-From ASTS Require Import Base Slots Names World Reconcile ReconcileCheck PlanProofs ReconcileProofs ConvergeProofs Env TerminationProofs QuietProofs CounterProofs ConvergedStatus TerminationEnv RoundExec RoundCheck RoundLift RoundChain RoundExample ExampleWorld.
+From ASTS Require Import Base Slots Names World Reconcile ReconcileCheck PlanProofs ReconcileProofs ConvergeProofs Env TerminationProofs QuietProofs CounterProofs ConvergedStatus TerminationEnv RoundExec RoundCheck RoundLift RoundChain RoundRevs RoundExample ExampleWorld.
 
 (* pods_converged s upd cnt slots pods (ConvergeProofs.v): every desired ordinal holds a pod that is created,
    not failed/succeeded, Running and Ready, not terminating, with identity and storage in order, and — when the
@@ -154,13 +154,68 @@ Theorem C02_full_model_converges :
 Proof. exact full_model_rounds_converge. Qed.
 Print Assumptions C02_full_model_converges.
 
-(* non-vacuity of (3e): a concrete world whose fair rounds are all regular (RoundExample.v): an outdated pod, a pod
+(* (3f) the same with the per-round hypothesis reduced to the REVISION PHASE (rev_quiet: nothing to adopt, the update
+   revision in place and newest): that the stored set keeps its spec, that every pod stays claimed, that the
+   claims stay known, that the pods stay well-formed and duplicate-free are preserved by the rounds themselves
+   (KeepsSet.v: a reconcile writes the status of the set only; claims are never removed; members of the round). *)
+Theorem C02_full_model_converges_rev_quiet :
+  forall hashes s0 upd cnt r slots,
+    0 <= cnt <= max_i32 + 1 -> s_deleting s0 = false -> NoDup (s_claims s0) -> s_rolling s0 <> None ->
+    get_paused (s_pause s0) = false -> s_selector s0 = SelOk ->
+    s_replicas s0 = Some r -> extend r (get_slots (s_slots s0)) = (cnt, slots) ->
+    forall (Wd : nat -> world) (curs : nat -> rinfo),
+    (forall k, Wd (S k) = env_round hashes (Wd k)) ->
+    (forall k, rev_quiet hashes upd (Wd k) (curs k)) ->
+    (exists st rv, w_set (Wd O) = Some (set_status s0 st rv)) ->
+    wf s0 cnt slots (w_pods (Wd O)) -> NoDup (w_pods (Wd O)) -> all_claimed s0 (w_pods (Wd O)) ->
+    (forall j, in_range cnt slots j = true -> claims_cached s0 (Wd O) j) ->
+    exists k, Z.of_nat k <= mu s0 upd cnt slots (w_pods (Wd O))
+      /\ forall m, (k <= m)%nat ->
+           pods_converged s0 upd cnt slots (w_pods (Wd m)) /\ same_members (w_pods (Wd m)) (w_pods (Wd k))
+           /\ forall cur, plan_acts s0 cur upd cnt slots (w_pods (Wd m)) = [].
+Proof. exact full_model_converges_rev_quiet. Qed.
+Print Assumptions C02_full_model_converges_rev_quiet.
+
+(* (3g) and with hypotheses on the INITIAL world only (RoundRevs.v): when the revision list is within
+   revisionHistoryLimit, a round leaves the revisions as they are and stores the old status or the computed one,
+   whose collision count is the one the revision phase used — so the next round's revision phase resolves the same
+   update revision without a write.  From a regular initial world the fair rounds of the full model bring the pods
+   of the API state to the converged set within mu rounds and keep them there; nothing is assumed about later
+   rounds. *)
+Theorem C02_full_model_converges_closed :
+  forall hashes s0 upd cnt r limit slots,
+    0 <= cnt <= max_i32 + 1 -> s_deleting s0 = false -> NoDup (s_claims s0) -> s_rolling s0 <> None ->
+    get_paused (s_pause s0) = false -> s_selector s0 = SelOk ->
+    s_replicas s0 = Some r -> extend r (get_slots (s_slots s0)) = (cnt, slots) -> s_rhl s0 = Some limit ->
+    forall (Wd : nat -> world), (forall k, Wd (S k) = env_round hashes (Wd k)) ->
+    forall st0 rv0 rcur0 rupd coll,
+    w_set (Wd O) = Some (set_status s0 st0 rv0) ->
+    wf s0 cnt slots (w_pods (Wd O)) -> NoDup (w_pods (Wd O)) -> all_claimed s0 (w_pods (Wd O)) ->
+    (forall j, in_range cnt slots j = true -> claims_cached s0 (Wd O) j) ->
+    nothing_to_adopt (Wd O) s0 = true ->
+    gsr_value hashes (set_status s0 st0 rv0) (sort_revs (lrevs (Wd O) s0)) = Some (rcur0, rupd, coll) ->
+    upd = rinfo_of rupd ->
+    Z.of_nat (length (sort_revs (lrevs (Wd O) s0))) <= limit ->
+    exists k, Z.of_nat k <= mu s0 upd cnt slots (w_pods (Wd O))
+      /\ forall m, (k <= m)%nat ->
+           pods_converged s0 upd cnt slots (w_pods (Wd m)) /\ same_members (w_pods (Wd m)) (w_pods (Wd k))
+           /\ forall cur, plan_acts s0 cur upd cnt slots (w_pods (Wd m)) = [].
+Proof. exact full_model_converges_closed. Qed.
+Print Assumptions C02_full_model_converges_closed.
+
+(* non-vacuity of (3e)-(3g): a concrete world whose fair rounds are all regular (RoundExample.v; rx_converges_closed
+   instantiates (3g) from the initial world alone): an outdated pod, a pod
    in a delete slot, a failed pod, ordinal 3 vacant; the theorem gives convergence within mu = 6 rounds *)
 Example C02_ex_full_model :
   exists k, Z.of_nat k <= 6
     /\ forall m, (k <= m)%nat -> pods_converged rx_set rx_upd 4 [1] (w_pods (rx_W m))
                                 /\ forall cur, plan_acts rx_set cur rx_upd 4 [1] (w_pods (rx_W m)) = [].
 Proof. exact rx_converges. Qed.
+Example C02_ex_full_model_closed :
+  exists k, Z.of_nat k <= 6
+    /\ forall m, (k <= m)%nat -> pods_converged rx_set rx_upd 4 [1] (w_pods (rx_W m))
+                                /\ forall cur, plan_acts rx_set cur rx_upd 4 [1] (w_pods (rx_W m)) = [].
+Proof. exact rx_converges_closed. Qed.
 
 Theorem C02_defaulted_spec :
   forall s, (String.eqb (s_strategy s) "RollingUpdate" = true -> s_rolling s <> None) ->
@@ -210,8 +265,8 @@ Proof. vm_compute. reflexivity. Qed.
    is never stuck, is quiet exactly at the converged states, reaches one in at most mu rounds (abstractly, for
    any environment, and over the full reconcile + environment model), the computed status there says
    replicas = ready = spec.replicas, and in a quietb world no write at all is issued.  NOT proved in Coq:
-   that regularity is PRESERVED by a round of the full model (the revision phase after a history truncation,
-   the claims of newly desired ordinals) — (3e) assumes it for every round; and that the world a fair history
+   the case of a revision list longer than revisionHistoryLimit (a truncation in mid-rollout changes the list the
+   next revision phase sorts) — (3g) assumes the list within the limit, (3f) the quiet revision phase per round; and that the world a fair history
    ends in satisfies quietb (the stored status is the computed one, the history is tidy).  Both are evaluated
    inside coqc by props/c02.py: round_check (the hypotheses of (3d) plus the equality of the two rounds) on
    the worlds of every generated history at its round boundaries and on synthetic settled worlds, quietb on the
